@@ -152,7 +152,7 @@ fn mutation_cell(name: &str) -> ReplCell {
     let mut c = cells::base(name, "C11");
     c.init = vec![Op::Spawn(0, cells::AB), Op::Spawn(1, cells::M_A)];
     c.alphabet = vec![Op::Nop, Op::Mut(0, TA), Op::Mut(0, TB), Op::Mut(1, TA)];
-    c.env = Env { hold_acks: true, hold_updates: 0, mutations: MutMenu::Full, leftover_choice: true };
+    c.env = Env { hold_acks: true, hold_updates: 0, mutations: MutMenu::Full, leftover_choice: true, lossy: false };
     c.oracles = Oracles { c11: true, c11_no_resend: true, c01: true, ..Default::default() };
     c
 }
@@ -185,6 +185,28 @@ pub fn cells(tier: Tier) -> Vec<CellPlan> {
     c.cfg.track = true;
     c.rounds = 3;
     v.push(plan(c, if q { 1 } else { 2 }, 1.0));
+
+    // every entity in its own message, lossy link: acknowledgement bookkeeping per message
+    let mut c = cells::split_lossy("C11");
+    c.oracles = Oracles { c11: true, c11_no_resend: true, c01: true, ..Default::default() };
+    c.rounds = 3;
+    v.push(plan(c, if q { 2 } else { 3 }, 3.0));
+
+    // two disjoint hierarchies: a mutation in one of them must still be sent
+    let mut c = mutation_cell("sync-2groups");
+    c.cfg.with_child = true;
+    c.cfg.sync_rel = true;
+    c.init = vec![
+        Op::Spawn(0, cells::M_A),
+        Op::Spawn(1, cells::M_A),
+        Op::Spawn(2, cells::M_A),
+        Op::Spawn(3, cells::M_A),
+        Op::SetParent(1, 0),
+        Op::SetParent(3, 2),
+    ];
+    c.alphabet = vec![Op::Nop, Op::Mut(0, TA), Op::Mut(1, TA), Op::Mut(3, TA)];
+    c.rounds = 3;
+    v.push(plan(c, if q { 1 } else { 2 }, 2.0));
 
     // acknowledgement timeout shorter than the round trip: only "never skipped" is asserted
     let mut c = mutation_cell("timeout");
